@@ -679,6 +679,8 @@ func checkC13(r *core.Run) {
 	r.Rule("T-alias: SetMetadata of a new id <=> SetModel; RemoveMetadata <=> RemoveModel(key of that metadata's Owner, Alias, GroupId)")
 	r.Rule("T-sched-shard, T-sched-meta (shared)")
 	r.Rule("G-alias-free: NewMeta writes the alias entry and the metadata only when no alias entry exists under that (owner, alias, group) key and no metadata under that data id (unconditionally: an existing entry is never overwritten)")
+	r.Rule("T-loopvar: in the storage handlers no address of a variable re-assigned per loop iteration is stored into a slice/field inside its loop (every order whose shard list is rewritten at a hand-over must be its own record)")
+	ruleLoopVarAddr(r, "T-loopvar", "sao/keeper.msgServer.")
 	r.Assume(aDeps)
 	r.Assume(aCG)
 	aliasKey := "*"
